@@ -82,13 +82,19 @@ theorem safe_tupleArgs (W : World V) (L : Legacy) (hL : L.tupleMissing = false) 
   safe_auto
   all_goals first | exact h1 _ _ | exact h2 _ _ _ _ | exact h3 _
 
-theorem safe_mapLoop (W : World V) (L : Legacy) (hL : L.mapInsert = false) (o : Opts) (kt : Ty)
+theorem safe_renderKey (W : World V) (L : Legacy) (hK : L.mapKeyStr = false) (k : V) : Safe (renderKey W L k) := by
+  unfold renderKey
+  simp only [hK]
+  safe_auto
+
+theorem safe_mapLoop (W : World V) (L : Legacy) (hL : L.mapInsert = false) (hK : L.mapKeyStr = false) (o : Opts) (kt : Ty)
     (vt : Option Ty) (kvs : List (V × V)) : ∀ i acc, Safe (mapLoop W L o kt vt kvs i acc) := by
   induction kvs with
   | nil => intro i acc; exact safe_pure _
   | cons kv rest ih =>
     intro i acc
     obtain ⟨k, x⟩ := kv
+    have hr := safe_renderKey W L hK k
     unfold mapLoop
     simp only [hL]
     safe_auto
@@ -131,16 +137,16 @@ theorem safe_validatorsLoop (W : World V) (o : Opts) (ks : List Nat) : ∀ v, Sa
 
 /-- the flags that matter inside `Rule.parse` -/
 def Legacy.ruleFixed (L : Legacy) : Bool :=
-  !L.seqIndex && !L.tupleMissing && !L.rewrap && !L.mapInsert && !L.containsNarrow
+  !L.seqIndex && !L.tupleMissing && !L.rewrap && !L.mapInsert && !L.containsNarrow && !L.mapKeyStr
 
 theorem safe_argsParse (W : World V) (L : Legacy) (hL : L.ruleFixed = true) (o : Opts) (R : RuleDecl)
     (v : V) : Safe (argsParse W L o R v) := by
   simp [Legacy.ruleFixed] at hL
-  obtain ⟨⟨⟨⟨h1, h2⟩, h3⟩, h4⟩, _⟩ := hL
+  obtain ⟨⟨⟨⟨⟨h1, h2⟩, h3⟩, h4⟩, _⟩, h6⟩ := hL
   unfold argsParse
   have hs := safe_seqLoop W L h1 o
   have ht := safe_tupleArgs W L h2 o
-  have hm := safe_mapLoop W L h4 o
+  have hm := safe_mapLoop W L h4 h6 o
   split
   · exact safe_pure _
   · exact safe_pure _
@@ -170,8 +176,8 @@ theorem C04_rule_parse_no_escape_partial (W : World V) (L : Legacy) (hL : L.rule
   unfold ruleParse
   have ha := safe_argsParse W L hL o R
   have hv := safe_validatorsLoop W o
-  have hc := safe_parseContains W L (by simp [Legacy.ruleFixed] at hL; exact hL.2) o
-  have hcc := safe_containsCount W L (by simp [Legacy.ruleFixed] at hL; exact hL.2)
+  have hc := safe_parseContains W L (by simp [Legacy.ruleFixed] at hL; exact hL.1.2) o
+  have hcc := safe_containsCount W L (by simp [Legacy.ruleFixed] at hL; exact hL.1.2)
   safe_auto
   all_goals first | exact hpre _ | exact hpost _ | exact ha _ | exact hv _ _ | exact hc _ _ _ _ | exact hcc _ _ _ _
 
@@ -386,17 +392,18 @@ theorem C04_class_call_no_escape (W : DataWorld V) (declared : Opts) (P : Parser
     Safe (classCall W Legacy.none declared P postInit kw schema) :=
   C04_class_init_no_escape W _ P postInit hpost kw schema
 
-/-- **`Cls.__from__(data, options)` / `init_dataclass` / nested data-class conversion**: only ParseError, for any
-input object, any declared options, any options given for the call, any enclosing context — provided the keyword
-unpacking `**data` itself does not fail, i.e. the mapping is string-keyed at the top level (the property's own
-proviso) or `cast_keyword_str` made it so -/
+/-- **`Cls.__from__(data, options)` / `init_dataclass` / nested data-class conversion**: only ParseError, for ANY
+input object — a mapping with keys of any type, a mapping whose own protocol raises, a non-mapping — any declared
+options, any options given for the call, any enclosing context.  (No string-keyed proviso any more: with
+fixes/C04-nonstring-keys the keys are checked, and the mapping is read, inside the wrapping `try`.) -/
 theorem C04_init_dataclass_no_escape (W : DataWorld V) (declared : Opts) (given ctx : Option Opts)
-    (P : ParserDecl V) (postInit : M Unit) (hpost : Safe postInit) (hunpack : ∀ d, Safe (W.unpack d)) (data : V)
+    (P : ParserDecl V) (postInit : M Unit) (hpost : Safe postInit) (data : V)
     (schema : Bool) : Safe (initDataclass W Legacy.none declared given ctx P postInit data schema) := by
   have h := fun o kw => C04_class_init_no_escape W o P postInit hpost kw schema
   unfold initDataclass
+  simp only [Legacy.none, Bool.false_and]
   safe_auto
-  all_goals first | exact h _ _ | exact hunpack _ | exact safe_parseData W Legacy.none rfl _ P [] _
+  all_goals first | exact h _ _ | exact safe_parseData W Legacy.none rfl _ P [] _ | (simp at *)
 
 /-- **no instance on error**: when parsing fails, construction *is* that failure — attribute assignment
 and the post-init hook are never sequenced and the context is left exactly as parsing left it -/
@@ -418,6 +425,16 @@ theorem C04_no_instance_on_error_trace (W : DataWorld V) (L : Legacy) (o : Opts)
     (hfail : (parserCall W L o P kw s).1 = .raise e) :
     (classInit W L o P postInit kw schema s).2.trace = (parserCall W L o P kw s).2.trace := by
   rw [C04_no_instance_on_error W L o P postInit kw schema s e hfail]
+
+/-- **`Cls(<dict>)`** (the positional form of the generated `__init__`): only ParseError, for a dict with keys of any
+type and for a dict subclass whose own protocol raises -/
+theorem C04_class_call_dict_no_escape (W : DataWorld V) (declared : Opts) (P : ParserDecl V) (postInit : M Unit)
+    (hpost : Safe postInit) (d : V) (schema : Bool) :
+    Safe (classCallDict W Legacy.none declared P postInit d schema) := by
+  have h := fun o kw => C04_class_init_no_escape W o P postInit hpost kw schema
+  unfold classCallDict
+  safe_auto
+  all_goals first | exact h _ _ | exact safe_parseData W Legacy.none rfl _ P [] _ | (simp at *)
 
 /-! ### declared vs running options: collected errors are never dropped -/
 
@@ -618,6 +635,7 @@ structure World.Terminates (W : World V) : Prop where
   construct : ∀ t v, Term (W.construct t v)
   insertKey : ∀ v, Term (W.insertKey v)
   validate : ∀ k v, Term (W.validate k v)
+  keyStr : ∀ v, Term (W.keyStr v)
   pre : ∀ v, Term (W.pre v)
   post : ∀ v, Term (W.post v)
 
@@ -625,13 +643,13 @@ structure DataWorld.Terminates (W : DataWorld V) : Prop where
   base : W.toWorld.Terminates
   toDict : ∀ v, Term (W.toDict v)
   castKeys : ∀ v, Term (W.castKeys v)
-  unpack : ∀ v, Term (W.unpack v)
+  readMapping : ∀ v, Term (W.readMapping v)
   discLookup : ∀ f v, Term (W.discLookup f v)
   neq : ∀ a b, Term (W.neq a b)
 
 macro "term_close" hW:ident : tactic => `(tactic| first
   | exact ($hW).conv _ _ | exact ($hW).convAt _ _ _ | exact ($hW).construct _ _ | exact ($hW).insertKey _
-  | exact ($hW).validate _ _ | exact ($hW).pre _ | exact ($hW).post _)
+  | exact ($hW).validate _ _ | exact ($hW).pre _ | exact ($hW).post _ | exact ($hW).keyStr _)
 
 theorem term_seqLoop (W : World V) (hW : W.Terminates) (L : Legacy) (o : Opts) (t : Ty) (v : V)
     (xs : List V) : ∀ i acc, Term (seqLoop W L o t v xs i acc) := by
@@ -677,6 +695,11 @@ theorem term_tupleArgs (W : World V) (hW : W.Terminates) (L : Legacy) (o : Opts)
   term_auto
   all_goals first | exact h1 _ _ | exact h2 _ _ _ _ | exact h3 _
 
+theorem term_renderKey (W : World V) (hW : W.Terminates) (L : Legacy) (k : V) : Term (renderKey W L k) := by
+  unfold renderKey
+  term_auto
+  all_goals term_close hW
+
 theorem term_mapLoop (W : World V) (hW : W.Terminates) (L : Legacy) (o : Opts) (kt : Ty) (vt : Option Ty)
     (kvs : List (V × V)) : ∀ i acc, Term (mapLoop W L o kt vt kvs i acc) := by
   induction kvs with
@@ -684,6 +707,7 @@ theorem term_mapLoop (W : World V) (hW : W.Terminates) (L : Legacy) (o : Opts) (
   | cons kv rest ih =>
     intro i acc
     obtain ⟨k, x⟩ := kv
+    have hr := term_renderKey W hW L k
     unfold mapLoop
     term_auto
     all_goals first | exact ih _ _ | term_close hW
@@ -793,7 +817,7 @@ theorem C04_logical_terminates (W : World V) (hW : W.Terminates) (L : Legacy) (o
   all_goals first | exact h1 _ | exact h2 _ | exact h3 _ _ | exact h4
 
 macro "dterm_close" hW:ident : tactic => `(tactic| first
-  | exact ($hW).base.conv _ _ | exact ($hW).toDict _ | exact ($hW).castKeys _ | exact ($hW).unpack _
+  | exact ($hW).base.conv _ _ | exact ($hW).toDict _ | exact ($hW).castKeys _ | exact ($hW).readMapping _
   | exact ($hW).discLookup _ _ | exact ($hW).neq _ _)
 
 theorem term_fieldConvert (W : DataWorld V) (hW : W.Terminates) (o : Opts) (f : FieldDecl V) (t : Ty) (v : V)
@@ -999,6 +1023,7 @@ def wWorld : World Nat where
   ofPairs := fun _ => 9
   construct := fun t v => if t == 3 then raise (builtinExc K.typeError) else pure v   -- unhashable items
   insertKey := fun _ => raise (builtinExc K.typeError)                                -- unhashable key
+  keyStr := fun _ => raise (builtinExc 108)                                           -- a key whose __str__ raises
   validate := fun _ v => pure v
   pre := pure
   post := pure
@@ -1009,7 +1034,9 @@ def wData : DataWorld Nat where
   isMapping := fun _ => true
   toDict := pure
   castKeys := pure
-  unpack := fun _ => pure []
+  readMapping := pure
+  strKeyed := fun _ => false
+  unpack := fun _ => []
   discLookup := fun _ _ => raise (builtinExc K.typeError)        -- unhashable discriminator value
   noInput := fun _ _ => false
   neq := fun _ _ => raise (builtinExc 107)                       -- Decimal('sNaN') != x
@@ -1063,20 +1090,30 @@ theorem C04_legacy_discriminator_witness :
     ∧ (parseValue wData Legacy.none {} { id := 0, disc := true } 5 false {}).1.escapes = false := by
   decide
 
+/-- `Dict[int, int]({<key whose __str__ raises>: 1})`: the route f-string outside any try -/
+theorem C04_legacy_map_key_str_witness :
+    (ruleParse wWorld { mapKeyStr := true } {} { origin := some 0, args := .map 0 none } 5 {}).1.escapes = true := by
+  decide
+
+/-- `Cls.__from__({1: 'a'})`: a key that is not a str reached `cls.__init__(inst, **data)` -/
+theorem C04_legacy_nonstring_keys_witness :
+    (initDataclass wData { nonStrKeys := true } {} none none {} (pure ()) 5 false {}).1.escapes = true
+    ∧ (initDataclass wData Legacy.none {} none none {} (pure ()) 5 false {}).1.escapes = false := by
+  decide
+
 /-! ## non-vacuity of the hypotheses used above -/
 
 def idWorld : World Nat :=
   { wWorld with conv := fun _ v => pure v, convAt := fun _ _ v => pure v, construct := fun _ v => pure v,
-                insertKey := fun _ => pure () }
+                insertKey := fun _ => pure (), keyStr := fun _ => pure () }
 
 example : idWorld.Terminates :=
   ⟨fun _ _ => term_pure _, fun _ _ _ => term_pure _, fun _ _ => term_pure _, fun _ => term_pure _,
-   fun _ _ => term_pure _, fun _ => term_pure _, fun _ => term_pure _⟩
+   fun _ _ => term_pure _, fun _ => term_pure _, fun _ => term_pure _, fun _ => term_pure _⟩
 
 example : (∀ v, Safe (idWorld.pre v)) ∧ (∀ v, Safe (idWorld.post v)) :=
   ⟨fun _ => safe_pure _, fun _ => safe_pure _⟩
 
-example : ∀ d, Safe (wData.unpack d) := fun _ => safe_pure _
 
 /-- a successful parse exists (the theorems are not about a model that always fails) -/
 example : (ruleParse idWorld Legacy.none {} { origin := some 0, args := .seq 0 } 5 {}).1.isOk = true := by decide
